@@ -4,6 +4,7 @@ from __future__ import annotations
 import ast
 
 from .. import astq, symtab
+from ..model import ClassRef
 from ..core import AnalysisError
 from ..symtab import Sym
 
@@ -270,7 +271,7 @@ def grammar_roundtrip(m):
     def written(text):
         import re
         return re.findall(r'<([^<>]*)>', text)
-    writer = Obj('writer')
+    writer = Obj('writer', __srcclass__=(m, ClassRef(WR, 'PolishLexWriter')))
     writer._write = lambda x: f'<{x.name}>'
     # ---- operated (arity 2 and 1)
     for arity in (2, 1):
@@ -293,7 +294,7 @@ def grammar_roundtrip(m):
         out.append((ok1, f'write operated/{arity}', f'writer emits {toks}, expected {exp}', loc(WR, wo, 'PolishLexWriter._write_operated')))
         stream = [Tok('T', 'OP', value=oper, ctype=OtherT)] + [Tok('T', o.name, value=o, ctype=OtherT) for o in operands]
         ctx = MockCtx(stream, VarT, DigitT)
-        parser = Obj('parser')
+        parser = Obj('parser', __srcclass__=(m, ClassRef(PAR, 'PolishParser')))
         parser._read = lambda c: (c.toks[c.pos].value, c.advance())[0]
         r = it.safe(ro, [parser, ctx])
         ok2 = r == ('OPERATED', 'OP', tuple(operands)) and ctx.pos == len(stream)
@@ -307,7 +308,7 @@ def grammar_roundtrip(m):
     quant = lambda vv, ss: ('QUANTIFIED', vv, ss)
     stream = [Tok('T', 'QUANT', value=quant, ctype=OtherT), Tok('T', 'VARTOK', value=7, ctype=VarT), Tok('T', 'BODY', value=body, ctype=OtherT)]
     ctx = MockCtx(stream, VarT, DigitT)
-    parser = Obj('parser')
+    parser = Obj('parser', __srcclass__=(m, ClassRef(PAR, 'PolishParser')))
     parser._read = lambda c: (c.toks[c.pos].value, c.advance())[0]
     parser._read_coords = lambda c: ((c.toks[c.pos].value, 0), c.advance())[0]
     r = it.safe(rq, [parser, ctx])
@@ -330,7 +331,7 @@ def grammar_roundtrip(m):
     out.append((toks == ['PRED', 'p0', 'p1'], 'write predicated', f'writer emits {toks}', loc(WR, wp, 'LexWriter._write_predicated')))
     stream = [Tok('T', 'PRED', value=pred, ctype=OtherT)] + [Tok('T', p.name, value=p, ctype=OtherT) for p in params]
     ctx = MockCtx(stream, VarT, DigitT)
-    parser = Obj('parser', opts={'auto_preds': True}, predicates=None)
+    parser = Obj('parser', __srcclass__=(m, ClassRef(PAR, 'PolishParser')), opts={'auto_preds': True}, predicates=None)
     parser._read_predicate = lambda c: (c.toks[c.pos].value, c.advance())[0]
     parser._read_params = lambda c, n: tuple((c.toks[c.pos].value, c.advance())[0] for _ in range(n))
     it.g['UndefinedPredicateError'] = 'UndefinedPredicateError'
@@ -346,7 +347,7 @@ def grammar_roundtrip(m):
             def __missing__(self, k):
                 return ''
         st = Strings({(T_, 3): '<SYM>', 'SO': '', 'SC': ''})
-        w = Obj('writer', strings=st)
+        w = Obj('writer', __srcclass__=(m, ClassRef(WR, 'PolishLexWriter')), strings=st)
         w._write_subscript = lambda s_: it.call(ws_, [w, s_])
         coordsitem = Obj('atomic', typ=T_, index=3, subscript=sub)
         text = it.safe(wc, [w, coordsitem])
@@ -355,7 +356,7 @@ def grammar_roundtrip(m):
         out.append((ok, f'write coords item subscript={sub}', f'writer emits {text!r}, expected {exp!r}', loc(WR, wc, 'LexWriter._write_coordsitem')))
         stream = [Tok('T', 'SYM', value=3, ctype=OtherT)] + [Tok('T', ch, value=int(ch), ctype=DigitT) for ch in (str(sub) if sub else '')] + [Tok('T', 'NEXT', value='x', ctype=OtherT)]
         ctx = MockCtx(stream, VarT, DigitT)
-        parser = Obj('parser')
+        parser = Obj('parser', __srcclass__=(m, ClassRef(PAR, 'PolishParser')))
         parser._read_subscript = lambda c: it.call(rs, [parser, c])
         r = it.safe(rc, [parser, ctx])
         ok = r == (3, sub) and ctx.pos == len(stream) - 1
@@ -409,7 +410,7 @@ def writer_injectivity(m):
         return s_
     for opts in (dict(identity_infix=True, max_infix=0, drop_parens=True), dict(identity_infix=False, max_infix=0, drop_parens=True),
                  dict(identity_infix=True, max_infix=3, drop_parens=False)):
-        w = Obj('writer', opts=opts, strings=strings)
+        w = Obj('writer', __srcclass__=(m, ClassRef(WR, 'StandardLexWriter')), opts=opts, strings=strings)
 
         def write(x):
             if getattr(x, '_typ', None) is PredicatedT:
